@@ -184,18 +184,18 @@ End G.
 (* list facts for the cuts *)
 Lemma drop_app_l {A} (a b : list A) n : 0 <= n <= len a -> drop (a ++ b) n = drop a n ++ b.
 Proof.
-  intros H. unfold drop. rewrite skipn_app. replace (Z.to_nat n - length a)%nat with 0%nat by (unfold len in H; lia).
+  intros H. rewrite ?drop_raw; unfold drop0. rewrite skipn_app. replace (Z.to_nat n - length a)%nat with 0%nat by (unfold len in H; lia).
   reflexivity.
 Qed.
 
 Lemma take_app_r {A} (a b : list A) m : 0 <= m -> take (a ++ b) (len a + m) = a ++ take b m.
 Proof.
-  intros H. unfold take. rewrite firstn_app. rewrite firstn_all2 by (unfold len; lia).
+  intros H. rewrite ?take_raw; unfold take0. rewrite firstn_app. rewrite firstn_all2 by (unfold len; lia).
   f_equal. f_equal. unfold len. lia.
 Qed.
 
 Lemma slice_as_take_drop {A} (l : list A) a n : 0 <= a -> 0 <= n -> slice l a n = take (drop l a) n.
-Proof. reflexivity. Qed.
+Proof. intros. rewrite slice_raw, take_raw, drop_raw. reflexivity. Qed.
 
 Lemma pyslice_drop {A} (d : list A) cs : 0 <= cs -> pyslice d (Some cs) None = drop d cs.
 Proof. apply pyslice_from. Qed.
@@ -203,7 +203,8 @@ Proof. apply pyslice_from. Qed.
 Lemma pyslice_cut_end {A} (d : list A) ce : 0 < ce <= len d -> pyslice d None (Some (- ce)) = take d (len d - ce).
 Proof.
   intros H. unfold pyslice, clampidx. destruct (- ce <? 0) eqn:E; [|lia].
-  rewrite Z.sub_0_r. replace (Z.max 0 (len d + - ce)) with (len d - ce) by lia. reflexivity.
+  rewrite Z.sub_0_r. replace (Z.max 0 (len d + - ce)) with (len d - ce) by lia.
+  rewrite slice_raw, take_raw. reflexivity.
 Qed.
 
 Lemma slice_three {A} (a m z : list A) cs ce :
@@ -289,7 +290,7 @@ Proof.
       unfold gdata in HD. cbn [app map concat fst snd] in HD. rewrite app_nil_r in HD. rewrite HD.
       rewrite pyslice_drop by lia.
       destruct (ce =? 0x200) eqn:Ec; cbn [negb].
-      * rewrite slice_as_take_drop by lia. unfold take. symmetry. apply firstn_all2.
+      * rewrite slice_as_take_drop by lia. rewrite ?take_raw; unfold take0. symmetry. apply firstn_all2.
         assert (len (drop D before) = size) by (rewrite len_drop by lia; lia). unfold len in *. lia.
       * rewrite pyslice_cut_end by (rewrite len_drop by lia; lia).
         rewrite slice_as_take_drop by lia. f_equal. rewrite len_drop by lia. lia.
@@ -302,7 +303,7 @@ Proof.
       destruct (ce =? 0x200) eqn:Ec; cbn [negb].
       * rewrite <- HD. replace size with (len (d1 ++ gdata gd f' ++ dl) - before - 0) by lia.
         rewrite slice_three by lia. rewrite Z.sub_0_r.
-        unfold take at 1. rewrite firstn_all2 by (unfold len; lia). reflexivity.
+        rewrite ?take_raw; unfold take0 at 1. rewrite firstn_all2 by (unfold len; lia). reflexivity.
       * rewrite pyslice_cut_end by lia.
         rewrite <- HD. replace size with (len (d1 ++ gdata gd f' ++ dl) - before - ce) by lia.
         rewrite slice_three by lia. reflexivity.
@@ -428,7 +429,7 @@ Proof.
     rewrite slice_app_split by lia. f_equal.
     + unfold chunk_img. rewrite (classify_in c t Hr) by (specialize (Hall 0%nat ltac:(lia)); now rewrite Z.mul_0_r, Z.add_0_r in Hall).
       fold r. change 512 with (0x200 * Z.of_nat 1). rewrite Gd by lia. reflexivity.
-    + destruct m as [|m]; [reflexivity|].
+    + destruct m as [|m]; [cbn [chunks_from map concat]; rewrite Z.mul_0_r; apply slice_0|].
       replace (c - r_off r + 0x200) with (c + 0x200 - r_off r) by lia.
       apply IH; try lia.
       intros j Hj. replace (c + 0x200 + 0x200 * Z.of_nat j) with (c + 0x200 * Z.of_nat (S j)) by lia. apply Hall. lia.
